@@ -27,4 +27,15 @@ def pyFloorDiv (a b : Int) : Except PyErr Int :=
 def pyTruncDiv (a b : Int) : Except PyErr Int :=
   if b = 0 then .error .zeroDiv else .ok (tquot a b)
 
+/-- `[f x for x in l]` where `f` may raise: the first error wins, otherwise all results in order -/
+def mapME {β γ : Type} (f : β → Except PyErr γ) : List β → Except PyErr (List γ)
+  | [] => .ok []
+  | x :: xs =>
+    match f x with
+    | .error e => .error e
+    | .ok y =>
+      match mapME f xs with
+      | .error e => .error e
+      | .ok ys => .ok (y :: ys)
+
 end Usid
